@@ -164,6 +164,7 @@ def main():
             },
             "miri_sim": ({
                 "executions": miri_execs,
+                "inconclusive_unsupported_by_miri": mrep.get("inconclusive_unsupported_by_miri", 0),
                 "by_preemption_rate": mrep["by_preemption_rate"],
                 "distinct_record_orders": mrep["distinct_record_orders"],
                 "wall_s": mrep["wall_s"],
